@@ -24,6 +24,8 @@
 #include <tbox/base/defines.h>
 #include <tbox/base/wrapped_recorder.h>
 
+#include <memory>
+
 #include "tcp_connector.h"
 #include "tcp_connection.h"
 
@@ -145,6 +147,18 @@ void TcpClient::cleanup()
     stop();
 
     d_->sp_connector->cleanup();
+
+    //! cleanup() may be called from one of these callbacks: it has to stay alive until it has returned
+    if (d_->cb_level > 0) {
+        struct Keep {
+            ConnectedCallback    connected_cb;
+            DisconnectedCallback disconnected_cb;
+        };
+        auto keep = std::make_shared<Keep>();
+        keep->connected_cb.swap(d_->connected_cb);
+        keep->disconnected_cb.swap(d_->disconnected_cb);
+        d_->wp_loop->runNext([keep] { }, "TcpClient::cleanup, release callbacks");
+    }
 
     d_->connected_cb = nullptr;
     d_->disconnected_cb = nullptr;
